@@ -27,13 +27,19 @@ func parqMain(args []string) {
 		recv := buildRecv(parts[1])
 		qs := strings.Split(parts[2], " ; ")
 		want := make([]string, len(qs))
-		for k, q := range qs {
-			want[k], _ = invoke(recv, q)
+		parallelFirst := i%2 == 1 // half of the structures are hit by the goroutines before any sequential call (first-use effects)
+		if !parallelFirst {
+			for k, q := range qs {
+				want[k], _ = invoke(recv, q)
+			}
 		}
+		got0 := make([][]string, 16)
 		var wg sync.WaitGroup
 		var mu sync.Mutex
 		for g := 0; g < 16; g++ {
 			wg.Add(1)
+			g := g
+			got0[g] = make([]string, len(qs))
 			go func() {
 				defer wg.Done()
 				// each goroutine works on its own copy of the handle (a Stack is a pointer wrapper): same underlying instance
@@ -41,6 +47,12 @@ func parqMain(args []string) {
 				for rep := 0; rep < 3; rep++ {
 					for k, q := range qs {
 						got, _ := invoke(local, q)
+						if parallelFirst {
+							if rep == 0 {
+								got0[g][k] = got
+							}
+							continue
+						}
 						if got != want[k] && !strings.HasPrefix(q, "Addr") {
 							mu.Lock()
 							bad++
@@ -52,6 +64,17 @@ func parqMain(args []string) {
 			}()
 		}
 		wg.Wait()
+		if parallelFirst {
+			for k, q := range qs {
+				want[k], _ = invoke(recv, q)
+				for g := 0; g < 16; g++ {
+					if got0[g][k] != want[k] && !strings.HasPrefix(q, "Addr") {
+						bad++
+						fmt.Printf("PARQ-MISMATCH case=%q query=%q want=%s got=%s\n", payload, q, want[k], got0[g][k])
+					}
+				}
+			}
+		}
 		calls += len(qs) * 16 * 3
 	}
 	fmt.Printf("parq structures=%d parallel_calls=%d mismatches=%d\n", *n, calls, bad)
